@@ -41,13 +41,18 @@ Proof. exact either_case_admitted. Qed.
 Print Assumptions c14_simple_either_case.
 
 (* a rejected play request gets an error back, is not listed by the stat API and has
-   nothing written to its connection (admission step of ServerManager.OnNew*SubSession;
+   nothing written to its connection; a session that a kick request finds is disconnected
+   (admission step of ServerManager.OnNew*SubSession;
    driven end to end for HTTP-FLV and HTTP-TS subscribers) *)
 Theorem c14_rejected_no_session : forall md5raw parse_query lower_uni cfg proto stream param,
   let d := sa_decide md5raw parse_query lower_uni cfg 1 proto stream param in
   (d <> SaOk -> go_code (sm_on_new_http_sub d) <> 0 /\ go_listed (sm_on_new_http_sub d) = 0 /\ go_wrote (sm_on_new_http_sub d) = false)
-  /\ (d = SaOk -> sm_on_new_http_sub d = mk_gate_out 0 1 true).
-Proof. intros. split; [destruct d; intros H; try congruence; repeat split; discriminate|intros ->; reflexivity]. Qed.
+  /\ (d = SaOk -> sm_on_new_http_sub d = mk_gate_out 0 1 true true true)
+  /\ (go_kicked (sm_on_new_http_sub d) = true -> go_closed (sm_on_new_http_sub d) = true).
+Proof.
+  intros. split; [destruct d; intros H; try congruence; repeat split; discriminate|].
+  split; [intros ->; reflexivity|destruct d; cbn; congruence].
+Qed.
 Print Assumptions c14_rejected_no_session.
 
 (* F-19, pinned tree: a request carrying the configured override secret is rejected
